@@ -133,7 +133,7 @@ CHECKS = {
              "implementation step is re-computed by the model from the implementation's own data before it (exact on the exact domain), and "
              "additivity, confinement, state preservation (incl. metadata, noise estimates, RNG state), bounded-vs-unbounded and "
              "superposition are evaluated directly on the implementation.",
-        design="3/C06", technique="Coq proof over list/slice routing (law-free where possible) + exact-rational correspondence"),
+        design="3/C06", technique="source-regenerated scalar kernels (tools/py2v.py) proved equal to the model + Coq proof over list/slice routing (law-free where possible) + exact-rational correspondence"),
     "C01": dict(
         text="Theorems: with callable components and no options the returned pixel is t_profile(t_i)*f_profile(f_j, path(t_i))*bandpass(f_j) "
              "on the frame's own axes (Leibniz); array / scalar forms agreeing with a callable on the grid normalise to the same values; an "
